@@ -280,6 +280,23 @@ def pack_body(ctx, c):
         extra = int(total_bytes / max(200, P // 2)) + 80
         for _ in range(extra):
             w.step(dt)
+        # a backlog that is still shrinking is only slow (best-effort resends compete with new messages for the one
+        # datagram per tick): keep going while there is progress; "left unsent" = no progress for 150 opportunities
+        def backlog():
+            sc = w.server_conn(ch.laddr)
+            return (len(ch.conn.outgoing_messages) if ch.conn is not None else 0) + (len(sc.outgoing_messages) if sc is not None else 0)
+        last, since, more = backlog(), 0, 0
+        while last and since < 150 and more < 20000:
+            w.step(dt)
+            more += 1
+            extra += 1
+            b = backlog()
+            if b != last:
+                last, since = b, 0
+            else:
+                since += 1
+        if last and since < 150:
+            ctx.inconclusive += 1
         # oracles over the whole history ----------------------------------------------------
         for em in w.net.log:
             if len(em.data) > mtu - 28:
